@@ -1714,6 +1714,87 @@ M("C15", "R-yaml-country-codes-stripped", YAMLF,
 M("C15", "yaml-country-list-deduplicated-through-a-set", YAMLF,
   '''    simulations = config_data["simulations"]''', '''    countries = [c for c in countries if not c.startswith("!")]
     simulations = config_data["simulations"]''', "C15.SEL")
+# --- rules added with the second round of seeded changes
+M("C13", "country-crop-ratio-floored-at-zero-and-capped", SCENF,
+  '''        constants_for_params["RATIO_CROPS_YEAR3"] = (
+            1 + country_data["crop_reduction_year3"]
+        )''', '''        constants_for_params["RATIO_CROPS_YEAR3"] = min(
+            1 + country_data["crop_reduction_year3"], 1
+        )''', "C13.DATA")
+M("C13", "country-grass-ratio-uses-previous-year", SCENF,
+  '''                1 + country_data["grasses_reduction_year" + str(i)]''',
+  '''                1 + country_data["grasses_reduction_year" + str(max(i - 1, 1))]''', "C13.DATA")
+M("C13", "R-country-crop-ratios-in-a-loop", SCENF,
+  '''        constants_for_params["RATIO_CROPS_YEAR1"] = (
+            1 + country_data["crop_reduction_year1"]
+        )
+        constants_for_params["RATIO_CROPS_YEAR2"] = (
+            1 + country_data["crop_reduction_year2"]
+        )''', '''        for first_years in (1, 2):
+            constants_for_params["RATIO_CROPS_YEAR" + str(first_years)] = (
+                country_data["crop_reduction_year" + str(first_years)] + 1
+            )''', None)
+M("C06", "depopulation-fast-path-relies-on-the-clamp", ANIMF,
+  '''        if new_animal_population_pre_slaughter < animal.target_population_head:
+            # already below target, do no slaughtering
+            actual_slaughter_rate = 0''', '''        if animal.target_population_head == 0:
+            actual_slaughter_rate = new_slaughter_rate
+        elif new_animal_population_pre_slaughter < animal.target_population_head:
+            # already below target, do no slaughtering
+            actual_slaughter_rate = 0''', "C06.LEDGER")
+M("C04", "csv-appended-to-existing-file", INTF,
+  '''            df.to_csv(file_location)''', '''            df.to_csv(file_location, mode="a")''', "C04.CSV")
+M("C04", "R-csv-explicit-write-mode", INTF,
+  '''            df.to_csv(file_location)''', '''            df.to_csv(file_location, mode="w", header=True)''', None)
+M("C04", "floor-value-passed-in-with-absolute-margin", OPT,
+  '''            ) = self.constrain_next_optimization_to_have_same_minimum_starvation(
+                model, variables
+            )''', '''            ) = self.constrain_next_optimization_to_have_same_minimum_starvation(
+                model, variables, percent_fed_from_first_optimization - 0.005
+            )''', "C04.FLOOR", more=((OPT, '''    def constrain_next_optimization_to_have_same_minimum_starvation(
+        self, model, variables
+    ):''', '''    def constrain_next_optimization_to_have_same_minimum_starvation(
+        self, model, variables, min_value
+    ):'''), (OPT, '''        """
+
+        # Set min_value to the previous optimization value and make sure consumed_kcals meets this value each month
+        min_value = (
+            model.objective.value() * 0.99995
+        )  # reach almost the same as objective, but allow for small rounding error if needed
+''', '''        """
+
+''')))
+M("C04", "R-floor-value-passed-in-relative", OPT,
+  '''            ) = self.constrain_next_optimization_to_have_same_minimum_starvation(
+                model, variables
+            )''', '''            ) = self.constrain_next_optimization_to_have_same_minimum_starvation(
+                model, variables, percent_fed_from_first_optimization * 0.99995
+            )''', None, more=((OPT, '''    def constrain_next_optimization_to_have_same_minimum_starvation(
+        self, model, variables
+    ):''', '''    def constrain_next_optimization_to_have_same_minimum_starvation(
+        self, model, variables, min_value
+    ):'''), (OPT, '''        """
+
+        # Set min_value to the previous optimization value and make sure consumed_kcals meets this value each month
+        min_value = (
+            model.objective.value() * 0.99995
+        )  # reach almost the same as objective, but allow for small rounding error if needed
+''', '''        """
+
+''')))
+M("C05", "no-storage-meat-bounded-by-running-total", OPT,
+  '''            <= self.time_consts["each_month_meat_slaughtered"][month].kcals''',
+  '''            <= self.time_consts["max_consumed_culled_kcals_each_month"][month]''', "C05.LP")
+M("C14", "conversion-object-keeps-a-factor-table", UCF,
+  '''        self.NUTRITION_PROPERTIES_ASSIGNED = False
+''', '''        self.NUTRITION_PROPERTIES_ASSIGNED = False
+        self.known_factors = {}
+
+    def remember_factor(self, label, value):
+        if label not in self.known_factors:
+            self.known_factors[label] = value
+        return self.known_factors[label]
+''', "C14.STATE", nth=0)
 # ---------------------------------------------------------------------------- runner
 
 COPY = ["src", "scenarios", "scripts", "plot_manuscript_figures.py", "tests"]
